@@ -259,6 +259,20 @@ func (g *Grammar) RuleString(r Rule) string {
 	return sb.String()
 }
 
+// HasValues returns true if the parsing stack has to carry values: some nonterminal or some
+// terminal (whose value is set by the lexer and can be read by semantic actions) has a type.
+func (g *Grammar) HasValues() bool {
+	if g.Parser.HasAssocValues() {
+		return true
+	}
+	for _, sym := range g.Syms[:g.NumTokens] {
+		if sym.Type != "" {
+			return true
+		}
+	}
+	return false
+}
+
 func (g *Grammar) NontermID(nonterm int) string {
 	return g.Syms[g.NumTokens+nonterm].ID
 }
